@@ -3,8 +3,8 @@
    group_activity_coefficients are the terms generated from the source on this run
    (Gen_kernels.v, Gen_wrappers.v).  Theorems over an arbitrary carrier K need no axioms;
    theorems at KR (real exp / ln / x^(3/4)) use the standard library's real numbers. *)
-From V Require Import C16.Model C16.Proofs C16.ProofsR C16.ProofsIdx C16.ProofsPerm C16.GibbsDuhem C16.ProofsGD.
-From V Require Import C16.GibbsDuhemResid C16.ProofsDeep.
+From V Require Import C16.Model C16.ModelJac C16.Proofs C16.ProofsR C16.ProofsIdx C16.ProofsPerm C16.GibbsDuhem C16.ProofsGD.
+From V Require Import C16.GibbsDuhemResid C16.ProofsDeep C16.ResidN C16.ProofsResidN C16.ProofsGDFull C16.ProofsJac.
 From Coquelicot Require Import Coquelicot.
 From Coq Require Import Reals List Permutation Lia.
 From Coq Require Import Lra.
@@ -344,11 +344,14 @@ Theorem C16_group_kernel_homogeneous_R : forall l x cgm lc Qs psis cQfs gpsis, l
 Proof. exact gac_homogeneous_R. Qed.
 Print Assumptions C16_group_kernel_homogeneous_R.
 
-(* full statement (n chemicals, combinatorial x residual), NOT proved for the residual part: it is measured on the
-   real objects by the oracle of props/C16.py with central finite differences along e_a - e_b *)
+(* full statement (n chemicals, combinatorial x residual, both models, along e_a - e_b at a point of the open simplex).
+   The three shape hypotheses (psis and gpsis are G x G, the stored reference rows have length G) are the array shapes
+   __new__ builds.  Proved below (C16_gibbs_duhem) from the combinatorial part above and the residual part
+   (C16_gibbs_duhem_resid); the oracle of props/C16.py still measures it on the real objects by finite differences. *)
 Definition C16_gibbs_duhem_statement : Prop :=
   forall (Qs : list R) (psis gpsis : list (list R)) (G : nat) (cs : list chem) (a b : nat),
   a <> b -> (a < length cs)%nat -> (b < length cs)%nat -> length Qs = G ->
+  rectangular psis G G -> rectangular gpsis G G -> (forall c, In c cs -> length (cQ c) = G) ->
   (forall c, In c cs -> (0 < cx c /\ 0 < cq c /\ 0 < cr c)%R /\ length (cg c) = G /\
                         (forall k, 0 <= nth k (cg c) 0)%R /\ (exists k, 0 < nth k (cg c) 0)%R) ->
   sum_over cs cx = 1%R ->
@@ -404,11 +407,9 @@ Proof.
 Qed.
 Print Assumptions C16_gibbs_duhem_resid_two_groups.
 
-(* what is missing for residual Gibbs-Duhem in general (n chemicals, several groups per chemical), NOT proved: with the
-   Euler relation above, Gibbs-Duhem along e_a - e_b is equivalent to the symmetry of the cross derivatives of the residual
-   exponent, d ln(gamma_i^R)/dx_j = d ln(gamma_j^R)/dx_i (existence of the excess-Gibbs potential) *)
-Definition bump_x (cs : list chem) (j : nat) (h : R) : list chem :=
-  map (fun jc => set_cx (snd jc) (cx (snd jc) + (if Nat.eqb (fst jc) j then h else 0))%R) (enum cs).
+(* cross-derivative symmetry of the residual exponent, d ln(gamma_i^R)/dx_j = d ln(gamma_j^R)/dx_i (existence of the
+   excess-Gibbs potential G = - sum_k Q_k W_k ln(sum_m Theta_m psi_mk)): n chemicals, any number of groups per chemical.
+   bump_x cs j h (ProofsResidN.v) is the composition x + h e_j.  Proved below in full, degenerate cases included. *)
 Definition C16_residual_cross_symmetry_statement : Prop :=
   forall (Qs : list R) (psis gpsis : list (list R)) (G : nat) (cs : list chem) (i j : nat),
   (i < length cs)%nat -> (j < length cs)%nat -> length Qs = G -> rectangular psis G G -> rectangular gpsis G G ->
@@ -417,6 +418,96 @@ Definition C16_residual_cross_symmetry_statement : Prop :=
   (forall m n, (m < G)%nat -> (n < G)%nat -> 0 < ent psis m n)%R ->
   Derive (fun h => resid_of Qs psis gpsis (wc_of (bump_x cs j h)) (nth i cs chem0)) 0 =
   Derive (fun h => resid_of Qs psis gpsis (wc_of (bump_x cs i h)) (nth j cs chem0)) 0.
+
+Theorem C16_residual_cross_symmetry : C16_residual_cross_symmetry_statement.
+Proof.
+  intros Qs psis gpsis G cs i j Hi Hj LQ Rp Rg Shape Qpos Ppos.
+  assert (NE : cs <> []) by (intros E; subst; simpl in Hi; lia).
+  assert (Shape0 : forall c, In c cs -> (0 <= cx c)%R /\ length (cg c) = G /\ length (cQ c) = G /\ (forall k, 0 <= nth k (cg c) 0)%R).
+  { intros c Hc. destruct (Shape c Hc) as (X & A & B & C). repeat split; auto. lra. }
+  assert (Strict : forall c, In c cs -> (0 < cx c)%R) by (intros c Hc; destruct (Shape c Hc) as (X & _); exact X).
+  exact (resid_cross_symmetry G Qs psis gpsis cs LQ Rp Rg NE Shape0 Qpos Ppos i j Strict Hi Hj).
+Qed.
+Print Assumptions C16_residual_cross_symmetry.
+
+(* the derivative itself, for every chemical c of the mixture and every direction dx of the composition, in the form that is
+   symmetric in (Q nu_c, Q D): Sym (ResidN.v) is the Hessian of the potential applied to the two group-amount directions *)
+Theorem C16_residual_derivative_symmetric_form : forall (Qs : list R) (psis gpsis : list (list R)) (G : nat) (cs : list chem) dx c,
+  (0 < G)%nat -> length Qs = G -> rectangular psis G G -> rectangular gpsis G G -> cs <> [] ->
+  (forall c, In c cs -> (0 <= cx c)%R /\ length (cg c) = G /\ length (cQ c) = G /\ (forall k, 0 <= nth k (cg c) 0)%R) ->
+  (forall k, (k < G)%nat -> 0 < nth k Qs 0)%R ->
+  (forall m n, (m < G)%nat -> (n < G)%nat -> 0 < ent psis m n)%R ->
+  (exists c k, In c cs /\ (k < G)%nat /\ (0 < cx c)%R /\ (0 < nth k (cg c) 0)%R) -> In c cs ->
+  is_derive (fun h => resid_of Qs psis gpsis (wc_of (pert cs (fun i => h * dx i)%R)) c) 0%R
+            (Sym G Qs psis (wc_of cs) (lam Qs (cg c)) (lam Qs (dirv G cs dx))) /\
+  forall p r, Sym G Qs psis (wc_of cs) p r = Sym G Qs psis (wc_of cs) r p.
+Proof.
+  intros Qs psis gpsis G cs dx c HG LQ Rp Rg NE Shape Qpos Ppos Ex Hc.
+  pose proof (tau_pos_of_group G Qs cs NE Shape Qpos Ex) as T.
+  split; [|intros p r; apply Sym_sym].
+  rewrite <- (resid_line_Sym G Qs psis (wc_of cs) (dirv G cs dx) (sig_pos_of_tau G Qs psis cs NE Shape Qpos Ppos T) c).
+  exact (resid_derive_direction G Qs psis gpsis cs LQ Rp Rg NE Shape Qpos Ppos HG dx c Hc T).
+Qed.
+Print Assumptions C16_residual_derivative_symmetric_form.
+
+(* Gibbs-Duhem for the RESIDUAL (group) part of the generated kernel: n chemicals, any group make-up, every direction dx of
+   the composition (in particular e_a - e_b), at every point of the CLOSED simplex / orthant where some chemical that is
+   present carries a group (vertices, edges and trace amounts included): sum_i x_i d ln(gamma_i^R) = 0.
+   pert cs d is the composition x + d. *)
+Theorem C16_gibbs_duhem_resid : forall (Qs : list R) (psis gpsis : list (list R)) (G : nat) (cs : list chem) (dx : nat -> R),
+  (0 < G)%nat -> length Qs = G -> rectangular psis G G -> rectangular gpsis G G -> cs <> [] ->
+  (forall c, In c cs -> (0 <= cx c)%R /\ length (cg c) = G /\ length (cQ c) = G /\ (forall k, 0 <= nth k (cg c) 0)%R) ->
+  (forall k, (k < G)%nat -> 0 < nth k Qs 0)%R ->
+  (forall m n, (m < G)%nat -> (n < G)%nat -> 0 < ent psis m n)%R ->
+  (exists c k, In c cs /\ (k < G)%nat /\ (0 < cx c)%R /\ (0 < nth k (cg c) 0)%R) ->
+  sum_over (enum cs) (fun ic => cx (snd ic) *
+     Derive (fun h => ln (nth (fst ic) (group_activity_coefficients KR (map cx (pert cs (fun i => h * dx i)%R)) (map cg cs)
+                                          (map (fun _ => 0%R) cs) Qs psis (map cQ cs) gpsis) 0%R)) 0)%R = 0%R.
+Proof. intros Qs psis gpsis G cs dx. exact (gibbs_duhem_resid_kernel G Qs psis gpsis cs dx). Qed.
+Print Assumptions C16_gibbs_duhem_resid.
+
+(* Gibbs-Duhem for the WHOLE coefficient of the sub-system with groups, both models *)
+Theorem C16_gibbs_duhem : C16_gibbs_duhem_statement.
+Proof.
+  intros Qs psis gpsis G cs a b _ Ha Hb LQ Rp Rg LcQ Data Sum1 Qpos Ppos.
+  assert (Ina : In (nth a cs chem0) cs) by (apply nth_In; exact Ha).
+  destruct (Data _ Ina) as (_ & Lga & _ & (k0 & Pk0)).
+  assert (Hk0 : (k0 < G)%nat).
+  { destruct (Nat.lt_ge_cases k0 G) as [L|L]; [exact L|]. rewrite nth_overflow in Pk0 by lia. lra. }
+  assert (HG : (0 < G)%nat) by lia.
+  apply (gibbs_duhem_full G Qs psis gpsis cs a b HG LQ Rp Rg Ha Hb).
+  - intros c Hc. destruct (Data c Hc) as ((X & _ & _) & Lg & Ng & _). repeat split; auto.
+  - intros c Hc. destruct (Data c Hc) as ((X & Q0 & R0) & _). repeat split; auto.
+  - exact Qpos.
+  - exact Ppos.
+  - exists (nth a cs chem0), k0. repeat split; auto.
+  - exact Sum1.
+Qed.
+Print Assumptions C16_gibbs_duhem.
+
+(* the EXECUTABLE Jacobian of ModelJac.v (the one the correspondence evaluates over option Q against the derivative measured
+   on thermosteam's kernel): at the real carrier its entry (i, j) is the derivative of ln gamma_i^R of the translated group
+   kernel along x + h e_j; the matrix is symmetric; and x^T J = 0 (Gibbs-Duhem of the residual part) *)
+Theorem C16_resid_jacobian : forall (Qs : list R) (psis gpsis : list (list R)) (G : nat) (cs : list chem),
+  length Qs = G -> rectangular psis G G -> rectangular gpsis G G ->
+  (forall c, In c cs -> (0 <= cx c)%R /\ length (cg c) = G /\ length (cQ c) = G /\ (forall k, 0 <= nth k (cg c) 0)%R) ->
+  (forall k, (k < G)%nat -> 0 < nth k Qs 0)%R ->
+  (forall m n, (m < G)%nat -> (n < G)%nat -> 0 < ent psis m n)%R ->
+  (exists c k, In c cs /\ (k < G)%nat /\ (0 < cx c)%R /\ (0 < nth k (cg c) 0)%R) ->
+  let J := resid_jac KR (map cx cs) (map cg cs) Qs psis in
+  (forall i j, (i < length cs)%nat -> (j < length cs)%nat ->
+     is_derive (fun h => resid_of Qs psis gpsis (wc_of (bump_x cs j h)) (nth i cs chem0)) 0%R (nth j (nth i J []) 0%R) /\
+     nth j (nth i J []) 0%R = nth i (nth j J []) 0%R) /\
+  (forall j, (j < length cs)%nat -> sum_over (enum cs) (fun ic => cx (snd ic) * nth j (nth (fst ic) J []) 0)%R = 0%R).
+Proof.
+  intros Qs psis gpsis G cs LQ Rp Rg Shape Qpos Ppos Ex J. split.
+  - intros i j Hi Hj. split.
+    + exact (resid_jac_is_derivative G Qs psis gpsis cs i j LQ Rp Rg Shape Qpos Ppos Ex Hi Hj).
+    + apply (resid_jac_symmetric G Qs psis cs i j LQ Rp); auto.
+      intros c Hc. destruct (Shape c Hc) as (_ & L & _). exact L.
+  - intros j Hj. exact (resid_jac_gibbs_duhem G Qs psis gpsis cs j LQ Rp Rg Shape Qpos Ppos Ex Hj).
+Qed.
+Print Assumptions C16_resid_jacobian.
 
 (* ------------------------------------------------------------------ non-vacuity *)
 Example C16_nonvacuous_pure :
@@ -481,6 +572,48 @@ Proof.
   - unfold sum_over, sumR. simpl. lra.
 Qed.
 
+(* the hypotheses of C16_gibbs_duhem, C16_gibbs_duhem_resid and C16_residual_cross_symmetry are met: an alcohol-like chemical
+   (groups 0 and 1) and an alkane-like chemical (group 0 only) at x = (1/4, 3/4), two groups, positive Q and psi *)
+Example C16_nonvacuous_gibbs_duhem_full :
+  let cs := [mkChem (1/4) 2 3 [1; 1] [1/3; 2/3] 0; mkChem (3/4) 4 5 [2; 0] [1; 0] 0]%R in
+  let Qs := [1; 2]%R in let psis := [[1; 1/2]; [1/3; 1]]%R in
+  (0 < length cs)%nat /\ (1 < length cs)%nat /\ length Qs = 2%nat /\ rectangular psis 2 2 /\
+  (forall c, In c cs -> length (cQ c) = 2%nat) /\
+  (forall c, In c cs -> (0 < cx c /\ 0 < cq c /\ 0 < cr c)%R /\ length (cg c) = 2%nat /\
+                        (forall k, 0 <= nth k (cg c) 0)%R /\ (exists k, 0 < nth k (cg c) 0)%R) /\
+  sum_over cs cx = 1%R /\
+  (forall k, (k < 2)%nat -> 0 < nth k Qs 0)%R /\
+  (forall k n, (k < 2)%nat -> (n < 2)%nat -> 0 < nth n (nth k psis []) 0)%R.
+Proof.
+  cbv zeta. split; [simpl; lia|]. split; [simpl; lia|]. split; [reflexivity|]. split.
+  { split; [reflexivity|]. intros row [E|[E|[]]]; subst; reflexivity. }
+  split. { intros c [E|[E|[]]]; subst; reflexivity. }
+  split.
+  { intros c [E|[E|[]]]; subst; cbn [cx cq cr cg].
+    - split; [repeat split; lra|]. split; [reflexivity|]. split.
+      + intros [|[|k]]; simpl; try lra. destruct k; simpl; lra.
+      + exists 0%nat. simpl. lra.
+    - split; [repeat split; lra|]. split; [reflexivity|]. split.
+      + intros [|[|k]]; simpl; try lra. destruct k; simpl; lra.
+      + exists 0%nat. simpl. lra. }
+  split. { unfold sum_over, sumR. simpl. lra. }
+  split.
+  - intros [|[|k]] Hk; simpl; try lra; lia.
+  - intros [|[|k]] [|[|n]] Hk Hn; simpl; try lra; lia.
+Qed.
+
+(* the hypotheses of C16_gibbs_duhem_resid / C16_resid_jacobian are also met at a VERTEX of the simplex (x = e_0) *)
+Example C16_nonvacuous_resid_vertex :
+  let cs := [mkChem 1 2 3 [1; 1] [1/3; 2/3] 0; mkChem 0 4 5 [2; 0] [1; 0] 0]%R in
+  (forall c, In c cs -> (0 <= cx c)%R /\ length (cg c) = 2%nat /\ length (cQ c) = 2%nat /\ (forall k, 0 <= nth k (cg c) 0)%R) /\
+  (exists c k, In c cs /\ (k < 2)%nat /\ (0 < cx c)%R /\ (0 < nth k (cg c) 0)%R).
+Proof.
+  cbv zeta. split.
+  - intros c [E|[E|[]]]; subst; cbn [cx cg cQ]; (split; [lra|]); (split; [reflexivity|]); (split; [reflexivity|]);
+      intros [|[|k]]; simpl; try lra; destruct k; simpl; lra.
+  - exists (mkChem 1 2 3 [1; 1] [1/3; 2/3] 0)%R, 0%nat. split; [left; reflexivity|]. split; [lia|]. simpl. split; lra.
+Qed.
+
 (* the hypotheses of C16_wrapper_pure_limit are met: water-like chemical, a member without groups, alkane-like chemical *)
 Example C16_nonvacuous_wrapper_pure_limit :
   let Qs := [1; 2]%R in
@@ -511,6 +644,14 @@ Example C16_nonvacuous_resid_two_groups :
 Proof. split; [|split; [reflexivity|lra]]. split; [reflexivity|]. intros row [E|[E|[]]]; subst; reflexivity. Qed.
 
 Local Open Scope Q_scope.
+(* the executable Jacobian evaluates on the data of C16_nonvacuous_gibbs_duhem_full: symmetric, x^T J = 0 exactly *)
+Example C16_nonvacuous_resid_jacobian :
+  ojac [1 # 4; 3 # 4] [[1; 1]; [2; 0]] [1; 2] [[1; 1 # 2]; [1 # 3; 1]] =
+    [[Some (-1721 # 676); Some (1721 # 2028)]; [Some (1721 # 2028); Some (-1721 # 6084)]] /\
+  chk_resid_jac [1 # 4; 3 # 4] [[1; 1]; [2; 0]] [1; 2] [[1; 1 # 2]; [1 # 3; 1]]
+    [[-1721 # 676; 1721 # 2028]; [1721 # 2028; -1721 # 6084]] (1 # 1000000) = true.
+Proof. split; vm_compute; reflexivity. Qed.
+
 (* a wrapper run that takes the group path and returns (carrier option Q, affine stand-ins) *)
 Example C16_nonvacuous_wrapper :
   exists w, gamma_UNIFAC (KS [mkSI 0 3 2; mkSI 0 (-1) 3; mkSI 0 1 2]) (some_vec [1 # 2; 1 # 4; 1 # 4]) (Some 350)
